@@ -1,6 +1,8 @@
 package main
 
 import (
+	"context"
+	"os"
 	"go/types"
 	"fmt"
 	"strings"
@@ -300,3 +302,92 @@ func registerStrings(e *Engine) {
 
 var strSliceT = types.NewSlice(strT)
 var uint64T = types.Typ[types.Uint64]
+
+// proveNow decides a side lemma synchronously while VCs are generated (used by higher-order library contracts).
+func (s *State) proveNow(goal string) bool {
+	script := s.script(not(goal))
+	f, err := os.CreateTemp("", "govc-lemma-*.smt2")
+	if err != nil {
+		return false
+	}
+	f.WriteString(script)
+	f.Close()
+	defer os.Remove(f.Name())
+	r := runSolver(context.Background(), solvers[0], f.Name(), 3000)
+	if r.status == "unknown" {
+		r = runSolver(context.Background(), solvers[2], f.Name(), 3000)
+	}
+	return r.status == "unsat"
+}
+
+func init() {
+	extraLib = append(extraLib, func(e *Engine) {
+		// strings.Map(f, s): higher-order contract instantiated with the argument closure's own body.
+		// The closure is executed on a fresh rune that is constrained only by what is known about the runes
+		// of s; per-rune lemmas proved about its result become facts about the mapped string.
+		e.lib["strings.Map"] = func(s *State, site ssa.Instruction, a []Val) []Val {
+			r := s.freshStr("mapped")
+			clo := a[0].Clo
+			if clo == nil || clo.Fn.Blocks == nil {
+				return []Val{r}
+			}
+			s.used("strings.Map(f, s): f is applied to each rune of s in order; negative results are dropped (per-rune lemmas proved on f's real body)")
+			src := a[1].S
+			s.strBasics(src)
+			s.c.declare("isControl", "(define-fun isControl ((r Int)) Bool (or (and (<= 0 r) (<= r 31)) (and (<= 127 r) (<= r 159))))")
+			side := s.clone()
+			rn := side.freshVal(types.Typ[types.Rune], "rune")
+			x := rn.S
+			side.assume(and(app("<=", "0", x), app("<=", x, "1114111")))
+			side.assume(implies(app("digits", src), and(app("<=", "48", x), app("<=", x, "57"))))
+			side.assume(implies(app("clean", src), or(eq(x, "10"), not(app("isControl", x)))))
+			side.assume(implies(app("noNL", src), not(eq(x, "10"))))
+			type lem struct {
+				name string
+				goal func(y string) string
+			}
+			lemmas := []lem{
+				{"clean", func(y string) string { return or(app("<", y, "0"), eq(y, "10"), not(app("isControl", y))) }},
+				{"nlkeep", func(y string) string { return eq(eq(x, "10"), eq(y, "10")) }},
+				{"keepall", func(y string) string { return app(">=", y, "0") }},
+			}
+			holds := map[string]bool{"clean": true, "nlkeep": true, "keepall": true}
+			paths := 0
+			side.inline(clo.Fn, []Val{rn}, clo.Bindings, func(st *State, res []Val) {
+				paths++
+				if len(res) != 1 {
+					for k := range holds {
+						holds[k] = false
+					}
+					return
+				}
+				for _, l := range lemmas {
+					if holds[l.name] && !st.proveNow(l.goal(res[0].S)) {
+						holds[l.name] = false
+					}
+				}
+			})
+			if paths == 0 {
+				return []Val{r}
+			}
+			n := s.c.ordinal(site, "lemma:strings.Map")
+			record := func(name string) {
+				o := &Obligation{Name: fmt.Sprintf("%s/lemma:strings.Map-%s#%d", s.c.name, name, n), Func: s.c.name, Kind: "lemma", Desc: "per-rune property of the closure passed to strings.Map, proved on its body", Expect: "unsat", Status: "unsat", Solver: "z3-new(sync)", Pos: s.c.eng.posOf(site)}
+				s.c.obls = append(s.c.obls, o)
+			}
+			if holds["clean"] {
+				record("clean")
+				s.assume(app("clean", r.S))
+			}
+			if holds["nlkeep"] {
+				record("nlkeep")
+				s.assume(eq(app("nl", r.S), app("nl", src)))
+			}
+			if holds["keepall"] && holds["nlkeep"] && holds["clean"] {
+				record("keepall")
+				s.assume(implies(app("clean", src), eq(app("vlen", r.S), app("vlen", src))))
+			}
+			return []Val{r}
+		}
+	})
+}
